@@ -179,7 +179,7 @@ def h5(ctx):
             ctx.bad("named-constructor:%s:%s" % (file, ctor), "%s in %s calls Slot::%s (%d site(s) in this file, %d reviewed): library code outside the frozen set invents a slot by name/number instead of Slot::fresh(); such a name can capture a user slot" % (
                 C.short(root.id), file, ctor, len(sites), ent[0] if ent else 0), where_of(b, c.bb))
     ctx.floor("Slot::fresh call sites", n_fresh, 6)
-    ctx.floor("Slot::numeric/named call sites", n_named, 4)
+    ctx.floor("Slot::numeric/named call sites", n_named, 2)
 
 
 RULES = [h1, h2, h3, h4, h5]
